@@ -119,6 +119,13 @@ type rawLine struct {
 //   (u128).lessEq      -> (pkg.u128).lessEq
 //   compile$1          -> pkg.compile$1
 func expandFuncName(short, pkg string) string {
+	if strings.HasPrefix(short, "field ") {
+		rest := strings.TrimPrefix(short, "field ")
+		if pkg == "" || strings.Contains(rest, "/") {
+			return short
+		}
+		return "field " + pkg + "." + rest
+	}
 	if pkg == "" || strings.Contains(short, "/") {
 		return short
 	}
